@@ -62,6 +62,7 @@ func c14Run(sc *C14Scenario) *c14Outcome {
 	mc := newMachine()
 	mc.illFormed = sc.Prog.IllFormed
 	mc.literal = sc.Prog.Literal
+	mc.richConsts = sc.Prog.Rich
 	var history []string
 	var obsBad, obsPanic string
 	builder := func() {
